@@ -121,7 +121,7 @@ def sysSymlink (fs : Fs) (target path : Bytes) : Fs × Except Errno Unit :=
   | .missing parent name => (fs.set (parent ++ [name]) (.link target), .ok ())
   | .err e => (fs, .error e)
 
-def sysRmdir (fs : Fs) (path : Bytes) : Fs × Except Errno Unit :=
+def sysRmdirCore (fs : Fs) (path : Bytes) : Fs × Except Errno Unit :=
   match resolve fs path false with
   | .found p .dir =>
     if p.isPrefixOf cwd then (fs, .error .einval)      -- the root, the working directory and its ancestors stay (assumption)
@@ -130,6 +130,17 @@ def sysRmdir (fs : Fs) (path : Bytes) : Fs × Except Errno Unit :=
   | .found _ _ => (fs, .error .enotdir)
   | .missing _ _ => (fs, .error .enoent)
   | .err e => (fs, .error e)
+
+/-- rmdir refuses a path whose last component is `.` (EINVAL) or `..` (ENOTEMPTY), whatever it resolves to -/
+def lastDot (path : Bytes) : Option Errno :=
+  match (kchunks path).getLast? with
+  | some c => if c = [46] then some .einval else if c = dotdot then some .enotempty else none
+  | none => none
+
+def sysRmdir (fs : Fs) (path : Bytes) : Fs × Except Errno Unit :=
+  match lastDot path with
+  | some e => (fs, .error e)
+  | none => sysRmdirCore fs path
 
 def sysUnlink (fs : Fs) (path : Bytes) : Fs × Except Errno Unit :=
   match resolve fs path false with
